@@ -626,7 +626,11 @@ func e2() {
 			for _, x := range seq {
 				s = append(s, fmt.Sprintf("Matches(%q,[%q])", x.name, x.pat))
 			}
-			res.Violate("filter-answer-depends-on-history", map[string]any{"part": "E2"},
+			cl := "filter-answer-depends-on-history"
+			if len(seq) == 1 {
+				cl = "filter-answer-wrong"
+			}
+			res.Violate(cl, map[string]any{"part": "E2"},
 				fmt.Sprintf("lookups on one GlobFilter: %s => last answer %v; the pattern means %v", strings.Join(s, " then "), got, truth(last)),
 				map[string]any{"engine": "enum", "lookups": s})
 		}
